@@ -16,10 +16,10 @@ def gen_scenario(rng):
     r = rng.random()
     if r < 0.3:
         env0["PATH"] = "/usr/bin::/opt/x/bin:/usr/bin:/bin:"
-    if rng.random() < 0.3:
-        env0["LD_LIBRARY_PATH"] = "/usr/lib:/usr/lib"
     if rng.random() < 0.4:
-        env0["XLIST"] = rng.choice(["/pre/x;/pre/y", "/pre/x", ";/pre/x;;/pre/y;"])
+        env0["LD_LIBRARY_PATH"] = rng.choice(["/usr/lib:/usr/lib", "/l1:/l2:/l1::", "/l1:/l2:/l3:/l2:/l1"])
+    if rng.random() < 0.4:
+        env0["XLIST"] = rng.choice(["/pre/x;/pre/y", "/pre/x", ";/pre/x;;/pre/y;", "/pre/x;/pre/y;/pre/x"])
     if rng.random() < 0.15:
         n = rng.choice(sorted(w["products"]))
         env0[n.upper() + "_HOME"] = "preexisting"
